@@ -178,7 +178,7 @@ func (ta *TxActor) handleTransaction(sender tc.SenderType, self *actor.PID,
 			replyTxResult(txResultCh, txn.Hash(), errors.ErrDuplicateInput,
 				fmt.Sprintf("transaction %x is already in the tx pool", txn.Hash()))
 		}
-	} else if ta.server.getTransactionCount()+ta.server.getPendingListSize() >= tc.MAX_CAPACITY {
+	} else if ta.server.getPendingListSize()+ta.server.getTransactionCount() >= tc.MAX_CAPACITY {
 		log.Debugf("handleTransaction: transaction pool is full for tx %x",
 			txn.Hash())
 
